@@ -532,6 +532,9 @@ class _ExtractMethodParts(ast.RopeNodeVisitor):
         self._check_constraints()
 
     def _get_kind_by_scope(self):
+        if self.info.make_global:
+            # a module-level function is neither a static nor a class method
+            return self.info.kind
         if self._extacting_from_staticmethod():
             return "staticmethod"
         elif self._extracting_from_classmethod():
